@@ -221,6 +221,21 @@ def count_rule(chk, prog, only=None):
         for n in ast.walk(f.node):
             if isinstance(n, ast.ListComp) and len(n.generators) == 1:
                 g = n.generators[0]
+                has_est = any(isinstance(c, ast.Call) and "estimate" in ast.unparse(c.func) for c in ast.walk(n.elt))
+                direct = g.iter.args if (isinstance(g.iter, ast.Call) and isinstance(g.iter.func, ast.Name) and g.iter.func.id == "zip") else [g.iter]
+                if has_est and not g.ifs and direct and all(isinstance(a, (ast.Name, ast.Attribute)) for a in direct):
+                    # direct iteration over whole arrays: one element per row by construction (no index arithmetic to get wrong)
+                    n_loops += 1
+                    site = "%s%s::[... for %s in %s]" % (F, key, ast.unparse(g.target), ast.unparse(g.iter))
+                    tnames = {x.id for x in ast.walk(g.target) if isinstance(x, ast.Name)}
+                    unames = {x.id for x in ast.walk(n.elt) if isinstance(x, ast.Name)}
+                    if tnames <= unames:
+                        chk.record("COUNT.comp", site, "one estimate per input row (direct iteration over the whole arrays)")
+                    else:
+                        why = "row variable(s) %s of the iteration never reach estimate(): every row gets the same estimate" % sorted(tnames - unames)
+                        chk.record("COUNT.comp", site, "one estimate per input row", verdict="VIOLATION", detail=why)
+                        chk.finding("COUNT.comp", f.module.rel, f.qname, "[... for %s in %s]" % (ast.unparse(g.target), ast.unparse(g.iter)), why, line=n.lineno)
+                    continue
                 if isinstance(g.iter, ast.Call) and isinstance(g.iter.func, ast.Name) and g.iter.func.id == "range" and isinstance(g.target, ast.Name):
                     if not any(isinstance(c, ast.Call) and "estimate" in ast.unparse(c.func) for c in ast.walk(n.elt)):
                         continue
@@ -310,8 +325,16 @@ def canaries(chk, prog):
                 if isinstance(c, ast.ClassDef) and c.name == cls:
                     for fn in c.body:
                         if isinstance(fn, ast.FunctionDef) and fn.name == meth:
+                            # the last normalisation on the way to the final return, whichever idiom it uses
                             for i, s in reversed(list(enumerate(fn.body))):
                                 if isinstance(s, ast.AugAssign) and isinstance(s.op, ast.Div) and "norm" in ast.unparse(s.value):
+                                    fn.body[i] = ast.Pass()
+                                    return True
+                                if isinstance(s, ast.Return) and isinstance(s.value, ast.BinOp) and isinstance(s.value.op, ast.Div):
+                                    s.value = s.value.left
+                                    return True
+                                if isinstance(s, ast.Assign) and isinstance(s.value, ast.BinOp) and isinstance(s.value.op, ast.Div) and "norm" in ast.unparse(s.value.right) \
+                                        and ast.unparse(s.targets[0]) == ast.unparse(s.value.left):
                                     fn.body[i] = ast.Pass()
                                     return True
             return False
